@@ -40,14 +40,14 @@ SOLVER_ERRORS = (UnboundLocalError, IndexError, KeyError, TypeError, ValueError,
 
 def maximal_patterns(W, sizes, demands):
     n = len(sizes)
-    caps = [min(W // sizes[i], demands[i]) for i in range(n)]
+    caps = [min(int(W // sizes[i]), demands[i]) for i in range(n)]
     pats = []
 
     def rec(i, rem, cur):
         if i == n:
             pats.append(tuple(cur))
             return
-        for k in range(min(caps[i], rem // sizes[i]), -1, -1):
+        for k in range(min(caps[i], int(rem // sizes[i])), -1, -1):
             cur.append(k)
             rec(i + 1, rem - k * sizes[i], cur)
             cur.pop()
@@ -102,6 +102,8 @@ def generate(rng, tier):
         W = rng.randrange(5, 31)
         n = rng.randrange(1, 6 if big else 5)
         sizes = [rng.randrange(1, W + 1) for _ in range(n)]
+        if rng.random() < 0.25:  # the roll width need not be an integer (piece sizes and demands are)
+            W = W + rng.choice([0.25, 0.5, 0.75, 0.9, 0.99])
         dmax = rng.choice([2, 4, 6, 8]) if n <= 3 else (rng.choice([2, 4, 6]) if n == 4 else rng.choice([2, 3]))
         demands = [rng.randrange(0, dmax + 1) for _ in range(n)]
         case.update({"mode": "stock", "W": W, "sizes": sizes, "demands": demands})
@@ -364,8 +366,11 @@ def shrink(case):
         for v in shr.shrink_int(case["demands"][i], 0):
             yield shr.with_path(case, ("demands", i), v)
     if case["mode"] == "stock":
-        for v in shr.shrink_int(case["W"], max(case["sizes"])):
-            yield shr.with_path(case, ("W",), v)
+        if isinstance(case["W"], int):
+            for v in shr.shrink_int(case["W"], max(case["sizes"])):
+                yield shr.with_path(case, ("W",), v)
+        elif case["W"] - int(case["W"]) != 0.5 and int(case["W"]) + 0.5 >= max(case["sizes"]):
+            yield shr.with_path(case, ("W",), int(case["W"]) + 0.5)
         for i in range(m):
             for v in shr.shrink_int(case["sizes"][i], 1):
                 yield shr.with_path(case, ("sizes", i), v)
